@@ -20,3 +20,11 @@ func (m *managerMutex) Lock() {
 }
 
 func (m *managerMutex) Unlock() { <-m.ch }
+
+// SimLockHeld (verification builds only) tells whether somebody holds the Manager's lock right now. A simulated
+// storage uses it to know that it is called OUTSIDE the lock - where it may yield to the simulator's scheduler
+// after a read, so that what another request does between that read and the caller's Lock() is explored.
+func (m *Manager) SimLockHeld() bool {
+	m.mu.init()
+	return len(m.mu.ch) == 1
+}
